@@ -17,8 +17,10 @@ let pr_set l = pr_ints (List.sort compare (List.map int_of_nat l))
 
 let world = ref (M.empty_world M.O)
 let opts = Array.make 4 M.empty_opt
-let nvalid = ref 0
-let valid p = int_of_nat p < !nvalid
+(* per Parameter: valid?, and the tag of the record it holds (Parameter i starts with i+1) *)
+let validarr = ref [||]
+let tagarr = ref [||]
+let valid p = let i = int_of_nat p in i < Array.length !validarr && !validarr.(i)
 (* configure_parameter throws?  0 SGD: never; 1 MomentumSGD, 2 Probe(strict): on invalid; 3 Probe(lax): never *)
 let okp o p = if o = 0 || o = 3 then true else valid p
 let is_probe o = o >= 2
@@ -39,8 +41,10 @@ let run_o o f =
   if is_probe o then s ^ " cfg=" ^ pr_ints (cfg_delta before o') else s
 let eval toks =
   match toks with
-  | ["new"; nm; _np; nv] ->
-      world := M.empty_world (nat nm); Array.fill opts 0 4 M.empty_opt; nvalid := int_of_string nv; "new"
+  | ["new"; nm; np; nv] ->
+      world := M.empty_world (nat nm); Array.fill opts 0 4 M.empty_opt;
+      validarr := Array.init (int_of_string np) (fun i -> i < int_of_string nv);
+      tagarr := Array.init (int_of_string np) (fun i -> i + 1); "new"
   | ["addp"; m; nm; p] -> run_m (M.add_param (nat m) (name_of_string nm) (nat p))
   | ["addm"; m; nm; c] -> run_m (M.add_model (nat m) (name_of_string nm) (nat c))
   | ["all"; m] -> pr_listing (M.get_all_parameters !world (nat m))
@@ -57,6 +61,20 @@ let eval toks =
       else (match M.opt_reset_gradients valid opts.(o) with
             | None -> "err"
             | Some l -> "ok " ^ pr_set (List.filter valid l))
+  | ["sl"; src; dst; _ws] ->
+      (match M.get_all_parameters !world (nat src) with
+       | None -> "diverge"
+       | Some l ->
+         (* save_inner throws on an invalid Parameter *)
+         if not (List.for_all (fun (_, p) -> valid p) l) then "save-err"
+         else
+           let file = List.map (fun (k, p) -> (k, !tagarr.(int_of_nat p))) l in
+           let (res, asg) = M.model_load_plan !world (nat dst) file in
+           List.iter (fun (p, tag) -> !tagarr.(int_of_nat p) <- tag; !validarr.(int_of_nat p) <- true) asg;
+           (match res with Some () -> "ok" | None -> "err"))
+  | ["pv"] ->
+      "ok [" ^ String.concat "," (List.init (Array.length !tagarr)
+                 (fun i -> if !validarr.(i) then string_of_int !tagarr.(i) else "-")) ^ "]"
   | _ -> "badcase"
 let () =
   iter_lines (fun line ->
